@@ -406,9 +406,17 @@ impl<'a, 'tcx> Cx<'a, 'tcx> {
                 push(&b.0);
                 push(&b.1);
             }
-            Rvalue::Aggregate(_, ops) => {
+            Rvalue::Aggregate(k, ops) => {
                 for o in ops.iter() {
                     push(o);
+                }
+                if let AggregateKind::Adt(d, vi, _, _, _) = &**k {
+                    let adt = self.tcx.adt_def(*d);
+                    out.push(format!(
+                        "{{\"adt\":{},\"variant\":{}}}",
+                        esc(&def_s(self.tcx, *d)),
+                        esc(&adt.variant(*vi).name.to_string())
+                    ));
                 }
             }
             _ => {}
